@@ -68,6 +68,8 @@ type Ev struct {
 //	uterm  same id, lower (non zero) term         -> must be rejected
 //	uver   same id, version-1                     -> must be rejected
 //	uover  fresh id, overlapping, version below the newest overlapped region -> must be rejected
+//	vupcdn same id, version + 1..3, conf_ver - 1                          -> must be rejected (conf_ver goes back)
+//	cupvdn same id, conf_ver + 1..3, version - 1                          -> must be rejected (version goes back)
 //	eqver  fresh id, overlapping, version equal to the newest overlapped region -> not "older", accepted
 //	grow   same id, version, conf_ver and peers, another approximate size, the range extended over the left or
 //	       right neighbour whose version is not higher -> not stale, accepted, the neighbour is displaced
@@ -82,7 +84,11 @@ type Ev struct {
 // leveldb handle is closed (A%4==0: Storage.Close, which flushes; A%4==2: a crash, the
 // unflushed batch is lost) and reopened under a new core.Storage; a warm one keeps the
 // Storage, whose LoadRegionsOnce loads only the first time. K=="flush" is Storage.Flush()
-// (what the region storage's background timer does 3 s after the last save).
+// (what the region storage's background timer does 3 s after the last save). K=="plant" (not
+// with the region storage on): a record for the cached region picked by I is written to storage
+// behind the cache (as another member leading in between would write to the shared etcd) with
+// A%2==0: version + 1..3 and conf_ver - 1, A%2==1: conf_ver + 1..3 and version - 1; the loader
+// (CheckAndPutRegion, shared with the region syncer) must refuse it on the next warm restart.
 type Dl struct {
 	K string `json:"k"`
 	I int    `json:"i"`
@@ -194,12 +200,17 @@ func genBase(t *rapid.T, minEv, maxEv int, faults int) Case {
 				continue
 			case 6:
 				c.Dels = append(c.Dels, Dl{K: "flush"})
+			case 7:
+				// a record of a cached id whose epoch components moved in opposite directions appears in
+				// storage behind the cache; the next election loads it over the warm cache
+				c.Dels = append(c.Dels, Dl{K: "plant", I: rapid.IntRange(0, 63).Draw(t, "plantPick"), A: rapid.IntRange(0, 5).Draw(t, "plantAux")})
+				c.Dels = append(c.Dels, Dl{K: "restart", A: 1})
 			}
 		}
 		c.Dels = append(c.Dels, it.d)
 		if rapid.IntRange(0, 11).Draw(t, "fab") == 0 {
 			c.Dels = append(c.Dels, Dl{
-				K: rapid.SampledFrom([]string{"uconf", "uterm", "uver", "uover", "uover", "eqver", "grow"}).Draw(t, "fabKind"),
+				K: rapid.SampledFrom([]string{"uconf", "uterm", "uver", "uover", "uover", "eqver", "grow", "vupcdn", "cupvdn"}).Draw(t, "fabKind"),
 				I: rapid.IntRange(0, 63).Draw(t, "fabPick"),
 				A: rapid.IntRange(0, 63).Draw(t, "fabAux"),
 			})
@@ -562,6 +573,19 @@ func fabricate(d Dl, cached []entry, i int, h *hb, fresh func() uint64) *hb {
 		if d.A%3 == 1 && i+1 < len(cached) {
 			h.End = cached[i+1].end
 		}
+	case "vupcdn":
+		// the two epoch components move in opposite directions: version ahead, conf_ver behind
+		if h.Conf == 0 {
+			return nil
+		}
+		h.Ver += 1 + uint64(mod(d.A, 3))
+		h.Conf--
+	case "cupvdn":
+		if h.Ver == 0 {
+			return nil
+		}
+		h.Conf += 1 + uint64(mod(d.A, 3))
+		h.Ver--
 	case "grow":
 		// same id, same epoch, same peers; the range grows over a neighbour that is not newer and
 		// something cache-only (the approximate size) differs, so that it is not "nothing changed"
